@@ -259,17 +259,19 @@ PROPS = {
     ),
     "C19": dict(
         functions=[CS + "CorpusShufflingTool.corpus_from_reference#names", CS + "CorpusShufflingTool.corpus_from_reference#count",
-                   CS + "CorpusShufflingTool.false_neg_shuffle", CS + "CorpusShufflingTool.shift_shuffle", CS + "CorpusShufflingTool.splits_shuffle", CT + "Continuum.__getitem__#annotator"]
+                   CS + "CorpusShufflingTool.false_neg_shuffle", CS + "CorpusShufflingTool.shift_shuffle", CS + "CorpusShufflingTool.splits_shuffle", CS + "CorpusShufflingTool.corpus_shuffle#names",
+                   CT + "Continuum.__getitem__#annotator"]
                   + [CT + "Continuum." + m for m in ("__init__", "add", "remove", "iter_annotator", "annotators", "bounds")] + [CT + "Unit.__lt__"],
         oracles=[CS + "CorpusShufflingTool.corpus_shuffle"],
         bounded=[dict(oracle=CS + "CorpusShufflingTool.corpus_shuffle",
-                      what="shift_shuffle is proved at the set level (every unit is an old unit of the same annotator moved by at most shift_max, label "
-                           "kept; nothing at magnitude 0) and so is splits_shuffle (every unit lies inside an old unit of the same annotator, label kept); "
-                           "their COUNT / total-duration clauses need the genericity hypothesis G and are bounded. false-positive / category "
-                           "shuffles, corpus_shuffle and __init__ are not under contract: seeded runs "
-                           "on random single-annotator references, magnitudes 0 / 0.2 / 0.5 / 1, names or counts, every flag alone and random "
-                           "combinations, include_ref: annotator set, non-emptiness, positive durations, categories, magnitude-0 identity and "
-                           "the confinement clause of the single active perturbation")],
+                      what="corpus_shuffle (annotator names given) is proved for every combination of flags over the proved contracts of "
+                           "corpus_from_reference / shift / false-negative / split shuffles and the ASSUMED set-level contracts of false_pos_shuffle "
+                           "and category_shuffle (numpy statistics / transition matrices outside the encoding): exactly the requested annotators "
+                           "(+ the reference when asked, AssertionError iff its name is requested), none empty, valid units. The counting clauses "
+                           "(shift keeps the number of units, a split adds one and keeps the total duration) need the genericity hypothesis G; "
+                           "magnitude 0 = exact copy and the integer-count form of corpus_shuffle are not composed deductively. All of these, and "
+                           "the two assumed contracts, are exercised on seeded runs on random single-annotator references, magnitudes 0 / 0.2 / "
+                           "0.5 / 1, names or counts, every flag alone and random combinations, include_ref")],
         design_ref="DESIGN.md section 4 C19 (K1-K4)",
         not_decided=["genericity hypothesis G: a freshly drawn continuous coordinate does not coincide exactly with an existing unit's",
                      "splits_shuffle: when the cut falls within 1e-6 of the end the first add raises and the fallback re-inserts the unsplit unit "
